@@ -1,7 +1,7 @@
 //! Who owns which row: the harness's own reading of the privacy-unit definition on the data
 //! (foreign-key path followed in the instance), independent of the compiler's tracking code.
 //! Used to build neighbouring instances (D minus one unit) and the holders side tables.
-use crate::scenario::{Cell, ColSpec, ColType, PuEntry, Scenario, TableSpec, ROW_PRIVACY};
+use simcommon::scenario::{Cell, ColSpec, ColType, PuEntry, Scenario, TableSpec, ROW_PRIVACY};
 use std::collections::{BTreeMap, BTreeSet};
 
 /// For every protected table: per row, the set of unit keys owning it.
